@@ -16,6 +16,10 @@ CLAIMED = {
  "C03": ("proof", "Deductive: _find_add_delay (nested loop invariants + lemma L-first-retarget) gives no-conflict and minimality for all schedules; make_next_pulse_slot gives earliest-allowed "
          "start, barrier and no-delay clauses; add_pulse lifts them to the timeline. estimate==actual and align are decided by the bounded stand-in until their Sequence-level contracts are finished.",
          "DESIGN.md section 3 C03"),
+ "C06": ("proof", "Deductive: ChannelSamples.extend_duration against the padding clause (refuses a shorter duration; keeps every existing sample; pads amplitude with zeros, "
+         "detuning with the off-detuning of the last block iff it is still open and zero otherwise, phase with its last value or zero when empty) for all arrays and durations. "
+         "Per-channel rendering (_ChannelSchedule.get_samples) and the per-atom view (to_nested_dict) are decided by the bounded stand-in, which re-renders every generated schedule "
+         "independently from its slots.", "DESIGN.md section 3 C06"),
  "C07": ("proof", "Deductive: _PhaseTracker/_QubitRef representation invariants and additive update (witnessed modulo 2pi) proved for __setitem__/increment_phase/"
          "update_last_used; _phase_shift shifts exactly the targeted trackers (loop invariant + frame); Sequence._add schedules programmed phase + common reference, starts after "
          "the latest phase shift of its targets, marks targets used and applies the post-phase shift; lemma L-phase-additive lifts single increments to sums of shifts.", "DESIGN.md section 3 C07"),
